@@ -77,7 +77,13 @@ class Addr:
             self.expires = datetime.datetime.strptime(gmtexpires, fmt)
         self.created = datetime.datetime.utcnow()
 
-        if self.expires is not None:
+        if self.expires is None:
+            if oldexpires is not None:
+                # used to expire, now it never does
+                self.expiry.cancel()
+                self.expiry = None
+
+        else:
             # seconds from now until the (new) expiry; never negative
             if self.expires <= self.created:
                 delay = 0
